@@ -204,7 +204,9 @@ impl<R: Read> LineProcessor<R> {
 
             if batch.len() >= batch_size {
                 if !handler(&batch)? {
-                    break;
+                    // the handler asked to stop: this batch has been delivered, it must not be
+                    // handed out a second time by the "last partial batch" code below
+                    return Ok(total_processed);
                 }
                 total_processed += batch.len();
                 batch.clear();
